@@ -119,9 +119,13 @@ PROPS = {
         "level_text": "Theorems (Props/C08.lean): schema_key_injective — equal hash input implies equal lists of full metric keys for all documents with C-string "
                       "keys (the lemma the schema-aware collectors rest on; FNV is external); unseparated_keys_collide — the witness that the unrepaired hash input "
                       "was not injective (F10); one-step laws of the dynamic collector (same schema continues, change splits + is accepted + updates the schema, F8); "
-                      "non-schema-aware collectors refuse a differing metric count/types and stay unchanged; stored rows have the chunk's width.",
-        "level_note": "FNV-64 collisions are outside the model (hash input is compared). Whole-history chunk boundaries for the streaming-dynamic and writer collectors "
-                      "are decided by the correspondence run (F9/F16 were found that way).",
+                      "non-schema-aware collectors refuse a differing metric count/types and stay unchanged; stored rows have the chunk's width; "
+                      "streaming_dynamic_chunks_have_one_schema - over EVERY history of Adds (any schemas in any order) no chunk the schema-aware streaming collector writes mixes "
+                      "two schemas: the written chunks are the value rows of lists of documents that each have one schema key, the pending samples belong to documents that all "
+                      "have the collector's current key (ghost invariant G over all histories).",
+        "level_note": "FNV-64 collisions are outside the model (hash input is compared). That a schema change always STARTS a new chunk (rather than being refused) for whole "
+                      "histories of the streaming-dynamic and writer collectors, and write faults, are decided by the correspondence run (F9/F16 were found that way); the "
+                      "non-streaming dynamic collector has its one-step laws only.",
         "assumptions": ["keys are C strings (no NUL), no '.' and not purely numeric for the correspondence pools", "FNV-64 injective on the inputs hashed"],
     },
     "C09": {
